@@ -106,6 +106,10 @@ def replay_hist(job):
                         forms.append(('before-datetime', dict(before=dt)))
                 if b % K == 0:
                     forms.append(('before-datetime-exact', dict(before=datetime.datetime.utcfromtimestamp(clock.T0 + b // K))))
+                    # the same instant as a timezone-aware datetime east and west of UTC
+                    for hours in (5, -8):
+                        tz = datetime.timezone(datetime.timedelta(hours=hours))
+                        forms.append(('before-datetime-aware', dict(before=datetime.datetime.fromtimestamp(clock.T0 + b // K, tz))))
                 for form, kw in forms:
                     tm = transaction.TransactionManager()
                     try:
@@ -225,7 +229,7 @@ def run(ctx):
         'rule': 'directed histories evaluated by TLC (ZScript over ZStorage: objects later changed, deleted, un-created by undo, '
                 'created later; stalled clock so that transactions share a second) are replayed on a FileStorage; after every '
                 'commit historical connections are opened at sampled bounds of the loadBefore table in the forms before=tid, '
-                'at=tid, at=datetime / before=datetime with sub-second part, before=datetime on a whole second; every object is '
+                'at=tid, at=datetime / before=datetime with sub-second part, before=datetime on a whole second (naive UTC and timezone-aware east/west of UTC); every object is '
                 'read through the connection and compared with the table entry TLC printed (state or absent); some connections '
                 'stay open (cache minimised) while the behaviour continues and are read again at the end; writes through them '
                 'must raise ReadOnlyHistoryError and leave the commit lock free; points later than the newest transaction must '
